@@ -114,7 +114,7 @@ Proof.
   induction fs as [|x r IH]; intros D Hne Hv H df Hin; cbn [J5sConvert.cv_files] in H.
   - inversion H. subst. destruct Hin.
   - destruct x as [j|p].
-    + apply obind_ok in H. destruct H as (a & Ea & H). apply obind_ok in H. destruct H as (c & Ec & H).
+    + destruct (file_lists_ok j) eqn:Elists; [|discriminate]. apply obind_ok in H. destruct H as (a & Ea & H). apply obind_ok in H. destruct H as (c & Ec & H).
       inversion H. subst D. apply in_app_or in Hin. destruct Hin as [Hin|Hin].
       * eapply cv_file_inv; [exact Hne|apply Hv; left; reflexivity|exact Ea|exact Hin].
       * eapply IH; [exact Hne|intros f Hf; apply Hv; right; exact Hf|exact Ec|exact Hin].
@@ -386,20 +386,20 @@ Proof.
 Qed.
 
 
-(* every edit of the sequence addresses a source file, is applicable, and leaves the bundle valid *)
+(* every edit of the sequence addresses a source file and leaves the bundle valid *)
 Fixpoint seq_ok (bd : bundle) (es : list edit) : Prop :=
   match es with
   | [] => True
   | e :: r =>
-      (exists j, nth_error bd (edit_target e) = Some (BJ j) /\ edit_ok e j) /\
+      (exists j, nth_error bd (edit_target e) = Some (BJ j)) /\
       valid (apply_edit bd e) = true /\ seq_ok (apply_edit bd e) r
   end.
 
 Lemma apply_edit_replace bd e j :
-  NoDup (map bfile_path bd) -> nth_error bd (edit_target e) = Some (BJ j) -> edit_ok e j ->
+  NoDup (map bfile_path bd) -> nth_error bd (edit_target e) = Some (BJ j) ->
   apply_edit bd e = map (replace_file (edit_file e j)) bd /\ file_src_ext j (edit_file e j).
 Proof.
-  intros Hn Hk Hok. pose proof (edit_file_ext e j Hok) as Hext. split; [|exact Hext].
+  intros Hn Hk. pose proof (edit_file_ext e j) as Hext. split; [|exact Hext].
   unfold apply_edit. rewrite (update_nth_const _ _ _ _ Hk).
   apply update_nth_replace with (j := j); [exact Hn|exact Hk|]. apply (src_ext_path _ _ Hext).
 Qed.
@@ -413,10 +413,10 @@ Theorem c13_full : forall es bd pkg D,
 Proof.
   induction es as [|e r IH]; intros bd pkg D Hv Hne Hseq Hex H.
   - exists D. split; [exact H|apply files_ext_refl].
-  - destruct Hseq as ((j & Hk & Hok) & Hv1 & Hseq).
+  - destruct Hseq as ((j & Hk) & Hv1 & Hseq).
     assert (Hn : NoDup (map bfile_path bd)).
     { unfold valid, valid_bundle in Hv. apply andb_true_iff in Hv. destruct Hv as [_ Hd]. apply distinct_nodup. exact Hd. }
-    destruct (apply_edit_replace bd e j Hn Hk Hok) as [Heq Hext].
+    destruct (apply_edit_replace bd e j Hn Hk) as [Heq Hext].
     assert (Honly : forall x, In x bd -> bfile_path x = j5s_path j -> x = BJ j).
     { intros x Hx Hp. eapply (nodup_map_inj bfile_path); [exact Hn|exact Hx|eapply nth_error_In; exact Hk|exact Hp]. }
     cbn [apply_edits fold_left]. change (fold_left apply_edit r (apply_edit bd e)) with (apply_edits (apply_edit bd e) r).
@@ -457,7 +457,7 @@ Proof.
   destruct Hc as [D Hc].
   assert (Hseq : seq_ok w_deep w_deep_edits).
   { cbn [seq_ok w_deep_edits].
-    repeat (split; [eexists; split; [reflexivity|vm_compute; first [exact I|left; discriminate|right; reflexivity]]|split; [vm_compute; reflexivity|]]). exact I. }
+    repeat (split; [eexists; reflexivity|split; [vm_compute; reflexivity|]]). exact I. }
   destruct (c13_full w_deep_edits w_deep (b "foo.v1") D) as (D' & Hc' & Hext); try assumption.
   - vm_compute. reflexivity.
   - intros x [<-|[]]. vm_compute. discriminate.
@@ -466,28 +466,24 @@ Proof.
     intros ->. vm_compute in Hc, Hc'. pose proof (eq_trans Hc (eq_sym Hc')) as E. discriminate E.
 Qed.
 
-(* non-vacuity of c13_full for enums WITHOUT options: `enum Status {}` + option ACTIVE (the
-   implicit zero value stays) + option OLD_UNSPECIFIED (now appended to an enum that has
-   options: a later option, number 2) satisfy seq_ok, and STATUS_UNSPECIFIED = 0 is kept; only
-   the same OLD_UNSPECIFIED appended FIRST is the recorded finding (J5sWitnessProofs) *)
+(* c13_full on enums WITHOUT options (regression, fix a65e1f2): `enum Status {}` + option
+   OLD_UNSPECIFIED (before the fix: the new zero value, STATUS_UNSPECIFIED renamed) + option ACTIVE
+   satisfy seq_ok, and STATUS_UNSPECIFIED = 0 is kept *)
 Definition w_empty_enum_ok_edits : list edit :=
-  [EAppendOption 0 0 (b "ACTIVE"); EAppendOption 0 0 (b "OLD_UNSPECIFIED")].
+  [EAppendOption 0 0 (b "OLD_UNSPECIFIED"); EAppendOption 0 0 (b "ACTIVE")].
 
-Lemma empty_enum_other_option_preserves :
+Lemma empty_enum_any_option_preserves :
   seq_ok w_empty_enum w_empty_enum_ok_edits /\
   exists D D', compile w_empty_enum (b "foo.v1") = Ok D /\
                compile (apply_edits w_empty_enum w_empty_enum_ok_edits) (b "foo.v1") = Ok D' /\
                files_ext D D' /\
                zero_value D' = Some (b "STATUS_UNSPECIFIED", 0) /\
                map en_vals (flat_map fl_enums D') =
-                 [[(b "STATUS_UNSPECIFIED", 0); (b "STATUS_ACTIVE", 1); (b "STATUS_OLD_UNSPECIFIED", 2)]].
+                 [[(b "STATUS_UNSPECIFIED", 0); (b "STATUS_OLD_UNSPECIFIED", 1); (b "STATUS_ACTIVE", 2)]].
 Proof.
   assert (Hseq : seq_ok w_empty_enum w_empty_enum_ok_edits).
-  { cbn [seq_ok w_empty_enum_ok_edits]. split.
-    - eexists. split; [reflexivity|]. right. vm_compute. reflexivity.
-    - split; [vm_compute; reflexivity|]. split.
-      + eexists. split; [reflexivity|]. left. vm_compute. discriminate.
-      + split; [vm_compute; reflexivity|exact I]. }
+  { cbn [seq_ok w_empty_enum_ok_edits].
+    repeat (split; [eexists; reflexivity|split; [vm_compute; reflexivity|]]). exact I. }
   split; [exact Hseq|].
   assert (Hc : exists D, compile w_empty_enum (b "foo.v1") = Ok D) by (eexists; vm_compute; reflexivity).
   destruct Hc as [D Hc].
@@ -499,10 +495,9 @@ Proof.
     vm_compute in Hc'. inversion Hc'. split; vm_compute; reflexivity.
 Qed.
 
-(* the recorded finding at depth: an enum WITHOUT options nested in an object; the appended
-   option OLD_UNSPECIFIED (EAppendIn ... [SNested 0] (AOption ...)) becomes its first option and
-   the zero value.  apply_edits applies the edit as it is; both versions are valid and compile;
-   the old descriptors do not embed; and the edit is not one C13_full speaks about (edit_ok fails) *)
+(* the same at depth (regression): an enum WITHOUT options nested in an object; the appended
+   option OLD_UNSPECIFIED (EAppendIn ... [SNested 0] (AOption ...)) is its first option, number 1
+   after the implicit zero value; both versions are valid and compile, the old descriptors embed *)
 Definition w_empty_nested_enum : bundle :=
   [BJ (mkJfile [b "foo"; b "v1"] (b "a") []
      [EObject (b "Foo") (mkprops [Property (b "x") false false (FScalar SString)])
@@ -512,18 +507,14 @@ Definition w_empty_nested_enum_edit : edit := EAppendIn 0 0 AtDecl [SNested 0] (
 Definition nested_enum_vals (D : list dfile) : list (list (str * N)) :=
   flat_map (fun f => flat_map (fun m => map en_vals (dm_enums m)) (fl_msgs f)) D.
 
-Lemma append_to_empty_nested_enum_renames_zero :
+Lemma append_to_empty_nested_enum_keeps_zero :
   valid w_empty_nested_enum = true /\ valid (apply_edits w_empty_nested_enum [w_empty_nested_enum_edit]) = true /\
   (exists D D', compile w_empty_nested_enum (b "foo.v1") = Ok D /\
                 compile (apply_edits w_empty_nested_enum [w_empty_nested_enum_edit]) (b "foo.v1") = Ok D' /\
                 nested_enum_vals D = [[(b "STATUS_UNSPECIFIED", 0)]] /\
-                nested_enum_vals D' = [[(b "STATUS_OLD_UNSPECIFIED", 0)]] /\
-                files_ext_b D D' = false) /\
-  (forall j, nth_error w_empty_nested_enum 0 = Some (BJ j) -> ~ edit_ok w_empty_nested_enum_edit j).
+                nested_enum_vals D' = [[(b "STATUS_UNSPECIFIED", 0); (b "STATUS_OLD_UNSPECIFIED", 1)]] /\
+                files_ext_b D D' = true).
 Proof.
-  split; [vm_compute; reflexivity|]. split; [vm_compute; reflexivity|]. split.
-  - eexists. eexists. repeat split; vm_compute; reflexivity.
-  - intros j Hj. vm_compute in Hj. inversion Hj. subst j. clear Hj.
-    unfold edit_ok, w_empty_nested_enum_edit. cbn. intros [H|H]; [apply H; reflexivity|].
-    vm_compute in H. discriminate H.
+  split; [vm_compute; reflexivity|]. split; [vm_compute; reflexivity|].
+  eexists. eexists. repeat split; vm_compute; reflexivity.
 Qed.
